@@ -97,6 +97,13 @@ def run_clause(res, rng, tier, recs, replay_case=None):
         for lab, n, p, v in cases:
             f.write("hsclip " + " ".join(str(x) for x in n + p + v) + "\n")
     rc, impl, _ = C.run_impl(C.build_harness("release"), cf, os.path.join(wd, "hsclip.out"))
+    rc_d, impl_d, _ = C.run_impl(C.build_harness("debug"), cf, os.path.join(wd, "hsclip.debug.out"))
+    ndiff = [i for i in range(len(cases)) if (impl.get(i) or {}).get("r") != (impl_d.get(i) or {}).get("r")]
+    if ndiff:
+        i = ndiff[0]
+        res.violation("C05:filter-debug-release-differ", f"HalfSpace::clip answers differently in the debug and the release build on {len(ndiff)} of {len(cases)} cases "
+                      f"(first: release {(impl.get(i) or {}).get('r')} debug {(impl_d.get(i) or {}).get('r') if impl_d.get(i) else impl_d.get(i)})",
+                      {"n": cases[i][1], "p": cases[i][2], "v": cases[i][3], "case": "hsclip"})
     # model inside Coq
     idx = list(range(len(cases)))
     shards = C.shard(idx, C.NPROC)
